@@ -170,13 +170,17 @@ theorem c07p_parseQuantity_err_num (t0 : Tok) (tl : List Tok) (s : BP α) (d : D
       refine Sat.bind (Sat.mono (consumeWhile_at (fun k => k != .word) h2 (t0 :: tl) [] (by simp)
         (by intro t ht; simpa using (hk t ht).2.1) (by intro b hb; cases hb)) ?_)
       rintro _ s3 ⟨rfl, h3⟩
-      obtain ⟨l, hl, hlm⟩ := hlast
-      rw [hl]
-      dsimp only
-      have hlw : (l.kind != .ws) = true := by simpa using (hk l hlm).2.2
-      simp only [hlw, if_true]
-      refine Sat.pure ⟨trivial, ?_⟩
-      exact ⟨h3.1, rfl, h3.2.2⟩
+      split
+      · refine Sat.pure ⟨trivial, ?_⟩
+        exact ⟨h3.1, rfl, h3.2.2⟩
+      · rename_i l hfind
+        have hlm : l ∈ t0 :: tl := by
+          have := List.mem_of_find?_eq_some hfind
+          exact List.mem_reverse.mp this
+        have hlw : (l.kind != .ws) = true := by simpa using (hk l hlm).2.2
+        simp only [hlw, if_true]
+        refine Sat.pure ⟨trivial, ?_⟩
+        exact ⟨h3.1, rfl, h3.2.2⟩
     · exact Sat.pure ⟨rfl, hat⟩
   · rintro adv s1 ⟨rfl, h1⟩
     dsimp only
